@@ -123,6 +123,7 @@ var errorStatus = map[byte]byte{model.TypeAuthen: 7, model.TypeAuthor: 0x11, mod
 
 func runC19(t failer, c c19Case) model.Class {
 	ev.Eval()
+	journal("C19", c)
 	fail := func(sig, format string, args ...interface{}) {
 		violation(t, "C19", "badsecret", "C19:"+sig, c, format, args...)
 	}
